@@ -69,8 +69,17 @@ func c42(c *engine.Ctx) {
 				ev := engine.StructFieldValue(st.Send, "err")
 				c.Check(cv != nil && ev != nil && isDialRes(cv, 0) && isDialRes(ev, 1), "C42.R2", "dial-goroutine/sends-own-result", sendSel.Pos(), "the value sent must be {conn, err} of this goroutine's dialTransport call")
 			} else {
-				if isDoneOf(st.Chan, "p:ctx") {
+				// the watched context must be the goroutine's own context parameter (the one
+				// connect binds to the cancellable dial context, R3) — not a captured outer one
+				own := false
+				if dc := engine.CallOf(engine.Unwrap(st.Chan)); dc != nil && engine.CalleeID(dc.Common()) == "(context.Context).Done" && len(try.Params) > 0 {
+					own = engine.Unwrap(engine.Args(dc.Common())[0]) == ssa.Value(try.Params[0])
+				}
+				dialOwn := len(try.Params) > 0 && engine.Unwrap(engine.Args(dial.Common())[1]) == ssa.Value(try.Params[0])
+				if own && dialOwn {
 					ctxBody = engine.SelectCases(sendSel)[i].Body
+				} else if isDoneOf(st.Chan, "p:ctx") {
+					c.Fail("C42.R2", "dial-goroutine/watches-own-context", sendSel.Pos(), "the hand-over select and the dial must use the goroutine's own context parameter (watches %s, dials with %s): a loser whose watched context is never cancelled blocks forever with an open connection", engine.Describe(st.Chan), engine.Describe(engine.Args(dial.Common())[1]))
 				} else {
 					c.Fail("C42.R2", "dial-goroutine/select/other-case", sendSel.Pos(), "unexpected receive case on %s", engine.Describe(st.Chan))
 				}
